@@ -288,6 +288,8 @@ class V3Contract(Contract):
 
     # callers' view: check the precondition fields, havoc the frame, assume the postcondition
     def effect(self, eng, st, args, kwargs):
+        if not self.post_fields and not self.pre_fields:
+            return NotImplemented
         o = args[0]
         v = view_of(eng, st, o)
         for n in self.pre_fields:
